@@ -600,7 +600,8 @@ theorem evalChannels_ok (s : AState ℚ ℚ) (buf : Array (Array ℚ)) (mask : L
 def finishInOf (s : AState ℚ ℚ) (mask : List Bool) (cl : List ℚ × ℚ × Bool) :
     AState ℚ ℚ × Outcome (CallOut ℚ) :=
   if cl.2.2 then
-    (s, if s.kind.isSinc then .panic "wave_out[n]" else .abort "get_unchecked_mut(n)")
+    (s, (if mask.any id then (if s.kind.isSinc then .panic "wave_out[n]" else .abort "get_unchecked_mut(n)")
+         else .panic "position diverges"))
   else
     match evalChannels s s.buf mask cl.1 with
     | .error f => (s, faultOutcome f)
@@ -633,7 +634,7 @@ theorem finishInOf_ok (s : AState ℚ ℚ) (mask : List Bool) (cl : List ℚ × 
   by_cases hr : cl.2.2 = true
   · rw [if_pos hr] at h
     dsimp only at h
-    split at h <;> simp at h
+    split at h <;> (try split at h) <;> simp at h
   · rw [if_neg hr] at h ⊢
     cases he : evalChannels s s.buf mask cl.1 with
     | error f =>
